@@ -2,6 +2,10 @@ package harness
 
 import (
 	"fmt"
+	"hash/adler32"
+	"hash/crc32"
+	"hash/fnv"
+	"sync"
 	"testing"
 
 	"github.com/RoaringBitmap/roaring"
@@ -136,5 +140,151 @@ func TestC18(t *testing.T) {
 		}
 		nt := n >= 2 && len(fieldsSeen) >= 2 && !want.IsEmpty()
 		st.Record(desc, nt, dedup(append(labels, c.LabelList()...))...)
+	})
+}
+
+// ---- field names that collide under common 32-bit checksums ----
+
+const c18NamesRule = "case = one segment whose field names come in pairs that collide under a common 32-bit checksum (FNV-1a, FNV-1, CRC-32 IEEE, CRC-32 Castagnoli, Adler-32, djb2, Java's 31-polynomial; those for which a birthday search over 400000 generated names finds a collision at start-up), " +
+	"each field holding its own term in its own document; lists mix the colliding fields in drawn order with repeats and absent terms; oracle = exact union; non-trivial = a list names both fields of a colliding pair; distinct = hash of the list"
+
+type nameHash struct {
+	name string
+	f    func(string) uint32
+}
+
+var nameHashes = []nameHash{
+	{"fnv1a32", func(s string) uint32 { h := fnv.New32a(); h.Write([]byte(s)); return h.Sum32() }},
+	{"fnv1-32", func(s string) uint32 { h := fnv.New32(); h.Write([]byte(s)); return h.Sum32() }},
+	{"crc32-ieee", func(s string) uint32 { return crc32.ChecksumIEEE([]byte(s)) }},
+	{"crc32-castagnoli", func(s string) uint32 { return crc32.Checksum([]byte(s), crc32.MakeTable(crc32.Castagnoli)) }},
+	{"adler32", func(s string) uint32 { return adler32.Checksum([]byte(s)) }},
+	{"djb2", func(s string) uint32 {
+		h := uint32(5381)
+		for i := 0; i < len(s); i++ {
+			h = h*33 + uint32(s[i])
+		}
+		return h
+	}},
+	{"java31", func(s string) uint32 {
+		h := uint32(0)
+		for i := 0; i < len(s); i++ {
+			h = h*31 + uint32(s[i])
+		}
+		return h
+	}},
+	{"fnv1a64-folded", func(s string) uint32 { h := fnv.New64a(); h.Write([]byte(s)); x := h.Sum64(); return uint32(x) ^ uint32(x>>32) }},
+}
+
+var collidingOnce sync.Once
+var collidingPairs [][2]string
+
+func collidingFieldNames() [][2]string {
+	collidingOnce.Do(func() {
+		for _, nh := range nameHashes {
+			seen := map[uint32]string{}
+			for i := 0; i < 400000; i++ {
+				n := fmt.Sprintf("f%d", i)
+				h := nh.f(n)
+				if o, ok := seen[h]; ok {
+					collidingPairs = append(collidingPairs, [2]string{o, n})
+					break
+				}
+				seen[h] = n
+			}
+		}
+	})
+	return collidingPairs
+}
+
+func TestC18Names(t *testing.T) {
+	st := NewStats("C18Names", c18NamesRule)
+	defer st.Flush()
+	pairs := collidingFieldNames()
+	if len(pairs) < 3 {
+		t.Fatalf("INFRA: only %d colliding name pairs found", len(pairs))
+	}
+	var b Batch
+	type ft struct {
+		f, t string
+		doc  int
+	}
+	var all []ft
+	for pi, p := range pairs {
+		for k := 0; k < 2; k++ {
+			tm := fmt.Sprintf("t%d-%d", pi, k)
+			b = append(b, Doc{Fields: []Field{{Name: p[k], Len: 1, Terms: []Term{{T: tm, Freq: 1}}}}})
+			all = append(all, ft{p[k], tm, len(b) - 1})
+		}
+	}
+	ctx := &Ctx{}
+	defer ctx.Close()
+	built, err := Build(b, normFns[0], 1025)
+	if err != nil {
+		t.Fatal(err)
+	}
+	bs, err := Persist(built)
+	if err != nil {
+		t.Fatal(err)
+	}
+	loaded, err := ctx.LoadFile(bs)
+	if err != nil {
+		t.Fatal(err)
+	}
+	mb, _, err := MergeBytes([]segment.Segment{built}, []*roaring.Bitmap{nil}, 1025)
+	if err != nil {
+		t.Fatal(err)
+	}
+	merged, err := LoadMem(mb)
+	if err != nil {
+		t.Fatal(err)
+	}
+	segs := []segment.Segment{built, loaded, merged}
+	rapid.Check(t, func(t *rapid.T) {
+		seg := segs[rapid.IntRange(0, 2).Draw(t, "segment")]
+		n := rapid.IntRange(2, 8).Draw(t, "nEntries")
+		var list []segment.Term
+		want := roaring.New()
+		desc := ""
+		both := false
+		seenPair := map[int]int{}
+		for i := 0; i < n; i++ {
+			x := all[rapid.IntRange(0, len(all)-1).Draw(t, "entry")]
+			if i%2 == 1 && rapid.Bool().Draw(t, "partner") {
+				// the checksum partner of the previous entry's field
+				for j, y := range all {
+					if y.f == list[len(list)-1].Field() {
+						x = all[j^1]
+					}
+				}
+			}
+			tm := x.t
+			if rapid.IntRange(0, 4).Draw(t, "absentTerm") == 0 {
+				tm = "absent"
+			} else {
+				want.Add(uint32(x.doc))
+			}
+			list = append(list, ftTerm{x.f, tm})
+			desc += fmt.Sprintf(" (%s,%s)", x.f, tm)
+			for j, y := range all {
+				if y.f == x.f {
+					seenPair[j/2] |= 1 << (j % 2)
+				}
+			}
+		}
+		for _, m := range seenPair {
+			if m == 3 {
+				both = true
+			}
+		}
+		var got *roaring.Bitmap
+		err := safely("DocsMatchingTerms", func() error { var e error; got, e = seg.DocsMatchingTerms(list); return e })
+		if err != nil {
+			t.Fatalf("list%s: %v", desc, err)
+		}
+		if got == nil || !got.Equals(want) {
+			t.Fatalf("field names colliding under common checksums, list%s:\n  expected %s, got %v", desc, want, got)
+		}
+		st.Record(desc, both, "colliding-names")
 	})
 }
